@@ -69,6 +69,21 @@ def build_deps(repo_copy, packages, target_dir=None, features=None):
                 arts[name] = f
     return arts, os.path.join(target_dir, "debug", "deps"), time.time() - t0
 
+def expand_crate(repo_copy, package, rel_out):
+    """macro-expanded source of a workspace crate (the text rustc compiles after #[derive(PrimeField)] etc.),
+    regenerated from the scratch copy on every run: `cargo +nightly rustc -p <pkg> --lib -- -Zunpretty=expanded`"""
+    out = os.path.join(repo_copy, rel_out)
+    if os.path.exists(out):
+        return out
+    os.makedirs(os.path.dirname(out), exist_ok=True)
+    cmd = ["cargo", "+nightly", "rustc", "-p", package, "--lib", "--offline", "--", "-Zunpretty=expanded"]
+    r = subprocess.run(cmd, cwd=repo_copy, env=offline_env({"CARGO_TARGET_DIR": os.path.join(CACHE, "xtarget")}),
+                       stdout=subprocess.PIPE, stderr=subprocess.PIPE, text=True, timeout=1200)
+    if r.returncode != 0 or "mod share_ff" not in r.stdout:
+        raise ToolError("macro expansion of %s failed:\n%s" % (package, r.stderr[-2000:]))
+    open(out, "w").write(r.stdout)
+    return out
+
 def run_verus(rs_path, externs, deps_dir, extra=None, timeout=900):
     cmd = ["verus", rs_path, "--output-json", "--time", "--error-format=json", "--multiple-errors", "50",
            "-L", "dependency=" + deps_dir]
